@@ -23,6 +23,7 @@
 #include <poll.h>
 #include <signal.h>
 #include <stdatomic.h>
+#include <sys/socket.h>
 #include <unistd.h>
 
 #include <nng/http.h>
@@ -709,7 +710,13 @@ rp_fill(rpeer *p, int timeout_ms)
 static void
 rp_close(rpeer *p)
 {
-	if (p->fd >= 0) close(p->fd);
+	if (p->fd >= 0) {
+		// abortive close: thousands of short connections must not pile up
+		// in TIME_WAIT on a machine shared with other checks
+		struct linger lg = { 1, 0 };
+		setsockopt(p->fd, SOL_SOCKET, SO_LINGER, &lg, sizeof(lg));
+		close(p->fd);
+	}
 	p->fd = -1;
 	bb_free(&p->in);
 	p->pos = 0;
@@ -903,13 +910,20 @@ server_up(void)
 	nng_http_handler *h;
 	int               rv;
 	if ((rv = nng_url_parse(&url, "http://127.0.0.1:0")) != 0) vf_harness_fail("url: %s", nng_strerror(rv));
-	if ((rv = nng_http_server_hold(&srv, url)) != 0) vf_harness_fail("server_hold: %s", nng_strerror(rv));
-	if ((rv = nng_http_handler_alloc(&h, "/", echo_handler)) != 0) vf_harness_fail("handler_alloc");
-	nng_http_handler_set_method(h, NULL);
-	nng_http_handler_set_tree(h);
-	nng_http_handler_collect_body(h, true, 1 << 20);
-	if ((rv = nng_http_server_add_handler(srv, h)) != 0) vf_harness_fail("add_handler: %s", nng_strerror(rv));
-	if ((rv = nng_http_server_start(srv)) != 0) vf_harness_fail("server_start: %s", nng_strerror(rv));
+	// (a kernel short of ephemeral ports can hand out one that cannot be
+	// listened on; that is the machine's state, not nng's: retry)
+	for (int attempt = 0;; attempt++) {
+		if ((rv = nng_http_server_hold(&srv, url)) != 0) vf_harness_fail("server_hold: %s", nng_strerror(rv));
+		if ((rv = nng_http_handler_alloc(&h, "/", echo_handler)) != 0) vf_harness_fail("handler_alloc");
+		nng_http_handler_set_method(h, NULL);
+		nng_http_handler_set_tree(h);
+		nng_http_handler_collect_body(h, true, 1 << 20);
+		if ((rv = nng_http_server_add_handler(srv, h)) != 0) vf_harness_fail("add_handler: %s", nng_strerror(rv));
+		if ((rv = nng_http_server_start(srv)) == 0) break;
+		nng_http_server_release(srv);
+		if (rv != NNG_EADDRINUSE || attempt >= 100) vf_harness_fail("server_start: %s", nng_strerror(rv));
+		vf_msleep(100);
+	}
 	if ((rv = nng_http_server_get_port(srv, &srv_port)) != 0 || srv_port == 0) vf_harness_fail("get_port: %s", nng_strerror(rv));
 	nng_url_free(url);
 }
@@ -1438,7 +1452,11 @@ client_up(void)
 	char     u[64];
 	nng_url *url;
 	cl_port = 0;
-	if ((cl_lfd = vf_tcp_listen(&cl_port)) < 0) vf_harness_fail("raw server cannot listen");
+	for (int attempt = 0; (cl_lfd = vf_tcp_listen(&cl_port)) < 0; attempt++) {
+		if (attempt >= 100) vf_harness_fail("raw server cannot listen");
+		cl_port = 0;
+		vf_msleep(100);
+	}
 	snprintf(u, sizeof(u), "http://127.0.0.1:%u", cl_port);
 	if (nng_url_parse(&url, u) != 0) vf_harness_fail("url");
 	if (nng_http_client_alloc(&cl_cli, url) != 0) vf_harness_fail("client_alloc");
